@@ -596,9 +596,17 @@ func uprioRace(h hist, rounds int) (hit, miss int) {
 			err := m.Enqueue(actor.VerifNewContext(snd, &Msg{ID: 1, Prio: 0}))
 			h.ret("a", "enq", b2i(err == nil))
 		}) // parked between push and count
-		h.call("b", "enq", 2, "b", 1)
-		err := m.Enqueue(actor.VerifNewContext(snd, &Msg{ID: 2, Prio: 1}))
-		h.ret("b", "enq", b2i(err == nil))
+		bdone := make(chan struct{})
+		go func() { // not a logical thread: it may legitimately block on the mailbox lock that A holds
+			h.call("b", "enq", 2, "b", 1)
+			err := m.Enqueue(actor.VerifNewContext(snd, &Msg{ID: 2, Prio: 1}))
+			h.ret("b", "enq", b2i(err == nil))
+			close(bdone)
+		}()
+		select {
+		case <-bdone:
+		case <-time.After(50 * time.Millisecond):
+		}
 		deq := func() int {
 			h.call("c", "deq", 0, "", 0)
 			r := msgID(m.Dequeue())
@@ -612,6 +620,7 @@ func uprioRace(h hist, rounds int) (hit, miss int) {
 		s.FreeRun()
 		s.Join(3 * time.Second)
 		s.Close()
+		<-bdone
 		for i := 0; i < 4 && deq() != 0; i++ {
 		}
 		h.call("c", "empty", 0, "", 0)
